@@ -102,8 +102,8 @@ def query_sanitisers(ctx) -> None:
     # ensure_subset closure raises when the dissected elements are not within the source
     es = fn.nested('ensure_subset')
     raises = [n for n in core.walk_local(es.node) if isinstance(n, ast.Raise)]
-    cond = [core.src(t) for r in raises for t, pol in cfg.guards(r, es.node) if pol]
-    ctx.check(any('issubset(superset)' in c and c.startswith('not ') and 'dissect(*features)' in c for c in cond), 'C07.sanitiser', es, 'ensure_subset raises unless the dissected elements are a subset of the source elements', es.node, key='ensure_subset:raise')
+    cond = cfg.cguards(raises[0], es.node) if raises else []
+    ctx.check(any((not pol) and c.endswith('.issubset(superset)') and 'dissect(*features)' in c for c, pol in cond), 'C07.sanitiser', es, 'ensure_subset raises unless the dissected elements are a subset of the source elements', es.node, key='ensure_subset:raise')
     sup = [s for s in core.walk_local(fn.node) if isinstance(s, ast.Assign) and core.src(s.targets[0]) == 'superset']
     ctx.check(len(sup) == 1 and 'dissect(*source.features)' in core.src(sup[0].value), 'C07.sanitiser', fn, 'the superset is the element set of the queried source', sup[0] if sup else fn.node, key='superset')
     ctx.floor('C07.sanitiser', nob, 10)
@@ -113,8 +113,8 @@ def join_set(ctx) -> None:
     prog = ctx.prog
     fn = prog.func(f'{FRAME}:Join.__new__')
     raises = [n for n in core.walk_local(fn.node) if isinstance(n, ast.Raise)]
-    conds = [(r, [(core.src(t), pol) for t, pol in cfg.guards(r, fn.node)]) for r in raises]
-    xor = any(any(pol and '^' in t and 'CROSS' in t and 'condition is None' in t for t, pol in gs) for _, gs in conds)
+    conds = [(r, cfg.cguards(r, fn.node, siblings=True)) for r in raises]
+    xor = any(any(pol and t.replace(' ', '') in ('(kindiscls.Kind.CROSS)^(conditionisNone)', '(conditionisNone)^(kindiscls.Kind.CROSS)') for t, pol in gs[-1:]) for _, gs in conds)
     ctx.check(xor, 'C07.join', fn, 'a cross join has no condition and every other join has one: raise under (kind is CROSS) xor (condition is None)', fn.node, key='join:xor')
     assigns = [s for s in core.walk_local(fn.node) if isinstance(s, ast.Assign) and core.src(s.targets[0]) == 'condition']
     ctx.check(len(assigns) >= 1, 'C07.join', fn, 'join condition is validated', fn.node, key='join:validated')
@@ -126,15 +126,15 @@ def join_set(ctx) -> None:
         ctx.check(all(core.src(t) == 'condition is not None' and pol for t, pol in gs), 'C07.join', fn, 'condition validation skipped only when absent', a, key='join:guard')
     for v in ('Predicate.ensure_is', 'Cumulative.ensure_notin'):
         ctx.check(v in applied, 'C07.join', fn, f'join condition passes through {v}', assigns[0] if assigns else fn.node, key=f'join:{v}')
-    subset = any(any(pol and t.startswith('not ') and 'dissect(condition)' in t and 'issubset' in t and 'left.features' in t and 'right.features' in t for t, pol in gs) for _, gs in conds)
+    subset = any(any((not pol) and 'dissect(condition).issubset(' in t and 'left.features' in t and 'right.features' in t for t, pol in gs) for _, gs in conds)
     ctx.check(subset, 'C07.join', fn, 'join condition uses only elements of the two joined sources', fn.node, key='join:subset')
     ret = next((s for s in core.walk_local(fn.node) if isinstance(s, ast.Return)), None)
     ctx.check(ret is not None and [core.src(a) for a in ret.value.args[1:]] == ['left', 'right', 'kind', 'condition'], 'C07.join', fn, 'join tuple stored as (left, right, kind, condition)', ret, key='join:store')
     # the xor check precedes everything
     sfn = prog.func(f'{FRAME}:Set.__new__')
     sraises = [n for n in core.walk_local(sfn.node) if isinstance(n, ast.Raise)]
-    sc = [core.src(t) for r in sraises for t, pol in cfg.guards(r, sfn.node) if pol]
-    ctx.check(any(c.replace(' ', '') in ('left.schema!=right.schema', 'right.schema!=left.schema', 'not(left.schema==right.schema)', 'notleft.schema==right.schema') for c in sc), 'C07.set', sfn, 'set operands must have equal schemas', sfn.node, key='set:schema')
+    sc = [(c.replace(' ', ''), pol) for r in sraises for c, pol in cfg.cguards(r, sfn.node)]
+    ctx.check(any((c in ('left.schema!=right.schema', 'right.schema!=left.schema') and pol) or (c in ('left.schema==right.schema', 'right.schema==left.schema') and not pol) for c, pol in sc), 'C07.set', sfn, 'set operands must have equal schemas', sfn.node, key='set:schema')
 
 
 def schema_equality(ctx) -> None:
@@ -152,15 +152,15 @@ def validators(ctx) -> None:
     prog = ctx.prog
     feature = prog.cls(f'{SERIES}:Feature')
     spec = {
-        'ensure_is': ('not isinstance(feature, cls)', None),
-        'ensure_in': ('not cls.dissect(feature)', None),
-        'ensure_notin': ('cls.dissect(feature)', None),
+        'ensure_is': (('isinstance(feature, cls)', False), None),
+        'ensure_in': (('cls.dissect(feature)', False), None),
+        'ensure_notin': (('cls.dissect(feature)', True), None),
     }
     for name, (cond, _) in spec.items():
         fn = prog.func(f'{feature.ref}.{name}')
         raises = [n for n in core.walk_local(fn.node) if isinstance(n, ast.Raise)]
-        got = [core.src(t) for r in raises for t, pol in cfg.guards(r, fn.node) if pol]
-        ctx.check(cond in got and all('GrammarError' in core.src(r) for r in raises), 'C07.validator', fn, f'Feature.{name} raises GrammarError exactly under `{cond}`', fn.node, key=f'Feature.{name}')
+        got = [g for r in raises for g in cfg.cguards(r, fn.node)]
+        ctx.check(got == [cond] and all('GrammarError' in core.src(r) for r in raises), 'C07.validator', fn, f'Feature.{name} raises GrammarError exactly when `{cond[0]}` is {cond[1]}', fn.node, key=f'Feature.{name}')
         rets = [s for s in core.walk_local(fn.node) if isinstance(s, ast.Return)]
         ctx.check(all(core.src(r.value) == 'feature' for r in rets), 'C07.validator', fn, f'Feature.{name} returns the feature unchanged', fn.node, key=f'Feature.{name}:return')
     pe = prog.func(f'{SERIES}:Predicate.ensure_is')
@@ -168,8 +168,8 @@ def validators(ctx) -> None:
     ctx.check('Boolean.ensure(feature.kind)' in text and 'cls is Predicate' in text, 'C07.validator', pe, 'bare Predicate.ensure_is demands a boolean kind', pe.node, key='Predicate.ensure_is')
     ke = prog.func(f'{KIND}:Any.ensure')
     raises = [n for n in core.walk_local(ke.node) if isinstance(n, ast.Raise)]
-    got = [core.src(t) for r in raises for t, pol in cfg.guards(r, ke.node) if pol]
-    ctx.check(any(g.startswith('not ') and 'match(kind)' in g for g in got), 'C07.validator', ke, 'kind.ensure raises GrammarError for a mismatching kind', ke.node, key='Any.ensure')
+    got = [g for r in raises for g in cfg.cguards(r, ke.node)]
+    ctx.check(got == [('cls.match(kind)', False)], 'C07.validator', ke, 'kind.ensure raises GrammarError for a mismatching kind', ke.node, key='Any.ensure')
 
 
 ALLOWED_RAISERS = (
